@@ -41,6 +41,12 @@ type Plan struct {
 	Batches int      `json:"batches"`
 	PerTask int      `json:"per_task"`
 	Skew    *Skew    `json:"skew"`
+	// systematic streams, appended after the len(Faces)*Batches random tasks:
+	// one decomposition-sweep task per face, then one pair-sweep task per
+	// (alphabet, mark) item
+	DecompCap  int        `json:"decomp_cap"`
+	PairItems  int        `json:"pair_items"`
+	SweepFaces [][]string `json:"sweep_faces"`
 }
 
 // EligibleFaces lists the faces both the Go loader and the C library accept.
@@ -318,8 +324,42 @@ func Main() {
 		pairs := PairSet{}
 		var cur *Pair
 		curRef := ""
+		nRandom := len(pl.Faces) * pl.Batches
+		sweepPairs := map[string]*Pair{}
 		run.WorkerLoop(120, func(i int) {
-			ref := pl.Faces[i/pl.Batches]
+			if i >= nRandom+len(pl.Faces) {
+				// (2) letter-mark pair sweep: one (alphabet, mark) item
+				k := i - nRandom - len(pl.Faces)
+				for v := 0; v < pairVariants; v++ {
+					c, ref := PairSweepCase(k, v, pl.SweepFaces)
+					p, ok := sweepPairs[ref]
+					if !ok {
+						if len(sweepPairs) > 12 {
+							for r, q := range sweepPairs {
+								if q != nil {
+									q.Close()
+								}
+								delete(sweepPairs, r)
+							}
+						}
+						p, _ = Open(c.Font, c.Index)
+						sweepPairs[ref] = p
+					}
+					if p == nil {
+						continue
+					}
+					w := Judge(p, &c, pl.Skew)
+					record(run, p, &c, &w, pairs, pl.Skew)
+				}
+				return
+			}
+			decomp := i >= nRandom
+			ref := ""
+			if decomp {
+				ref = pl.Faces[i-nRandom]
+			} else {
+				ref = pl.Faces[i/pl.Batches]
+			}
 			if ref != curRef {
 				if cur != nil {
 					cur.Close()
@@ -335,6 +375,15 @@ func Main() {
 				cur = p
 			}
 			if cur == nil {
+				return
+			}
+			if decomp {
+				// (1) decomposition sweep of this face
+				for _, c := range DecompSweep(cur, i-nRandom, pl.DecompCap) {
+					c := c
+					w := Judge(cur, &c, pl.Skew)
+					record(run, cur, &c, &w, pairs, pl.Skew)
+				}
 				return
 			}
 			seen := map[uint32]bool{}
@@ -377,7 +426,8 @@ func Main() {
 	t0 := time.Now()
 	sk := ComputeSkew()
 	faces, rejected := EligibleFaces()
-	pl := &Plan{Faces: faces, Skew: sk, Batches: run.Pick(8, 80), PerTask: run.Pick(50, 100)}
+	pl := &Plan{Faces: faces, Skew: sk, Batches: run.Pick(8, 80), PerTask: run.Pick(50, 100),
+		DecompCap: run.Pick(120, 0), PairItems: PairSweepItems(), SweepFaces: PairSweepFaces(faces)}
 	if err := SavePlan(planPath, pl); err != nil {
 		fmt.Fprintln(os.Stderr, "plan:", err)
 		os.Exit(3)
@@ -403,10 +453,21 @@ func Main() {
 		run.Note("reference version is %s, the skew list was written for 6.0.0", sk.HBVersion)
 	}
 	n := len(faces) * pl.Batches
-	run.Extra("cases_planned", n*pl.PerTask)
+	run.Extra("random_cases_planned", n*pl.PerTask)
+	run.Extra("decomposition_sweep_tasks_one_per_face", len(faces))
+	run.Extra("pair_sweep_cases_planned", pl.PairItems*pairVariants)
+	run.Extra("pair_sweep_faces_per_alphabet", pl.SweepFaces)
+	nRandom := n
+	n += len(faces) + pl.PairItems
 	run.RunChildren(vrun.ChildCfg{N: n, Chunk: run.Pick(96, 400), StallWall: 600 * time.Second}, func(d vrun.Death) {
 		run.Inconclusive("go side died in a worker (C01): " + d.Kind)
-		run.Note("task %d (face %s): %s", d.Case, faces[d.Case/pl.Batches], vrun.FatalHead(d.Detail))
+		what := "pair sweep"
+		if d.Case < nRandom {
+			what = "face " + faces[d.Case/pl.Batches]
+		} else if d.Case < nRandom+len(faces) {
+			what = "decomposition sweep of face " + faces[d.Case-nRandom]
+		}
+		run.Note("task %d (%s): %s", d.Case, what, vrun.FatalHead(d.Detail))
 	})
 	nf, np, perCat := MergePairSets(wd)
 	run.Extra("fonts_reached", nf)
